@@ -403,3 +403,94 @@ Example C16_registration_examples :
   cfg_wf (ex_cfg_r [s_rs256]) = true /\
   register (ex_cfg_r [s_rs256]) {| rq_alg := Some s_rs256; rq_ok := false; rq_rest := ex_client s_cd s_rd RAbsent |} = RegRefused.
 Proof. vm_compute. repeat split; reflexivity. Qed.
+
+(* --- round 11 --- *)
+(* ---------------------------------------------------------------- registration HISTORIES under one client id
+   (Model/JarReg.v).  `reregister g s` = one registration under an id that may be in use already
+   (Registration.client_registration_setup: the record of the id is replaced, the key jar entry of the id is deleted and
+   re-filled with the keys THIS request brings - none, when it has neither jwks nor jwks_uri - plus the secret just
+   issued; a refused registration leaves both as they were).  `after g h` = the provider after the history h,
+   `latest h cid` = the registration in force for cid: the last accepted one under that id.  rs_mat s = the key numbers
+   registration s brings, material = those plus the number of the secret issued for it. *)
+From Verif Require Import Model.JarReg.
+From Verif Require Import Proofs.JarReg_proofs.
+
+(* the key jar entry and the record of an id are those of the registration in force, whatever came before *)
+Theorem C16_history_key_jar : forall h g cid,
+  assoc cid (jar (after g h)) =
+  match latest h cid with Some s => Some (material (rs_mat s)) | None => assoc cid (jar g) end.
+Proof. exact history_jar. Qed.
+Print Assumptions C16_history_key_jar.
+
+Theorem C16_history_record : forall h g cid,
+  find_client (clients (after g h)) cid =
+  match latest h cid with
+  | Some s => Some (with_reg (rq_rest (rs_rq s)) (negotiate g (rq_alg (rs_rq s))))
+  | None => find_client (clients g) cid
+  end.
+Proof. exact history_client. Qed.
+Print Assumptions C16_history_record.
+
+(* C16_history_latest_material - after ANY registration history, over every later sequence of authorization / PAR
+   operations and all three transports: an object whose parameters take effect for cid verified under material of the
+   latest accepted registration under cid (or a symmetric key of the provider itself) *)
+Theorem C16_history_latest_material : forall g h d t0 ops cid s, cfg_wf g = true -> latest h cid = Some s ->
+  Forall (fun sr => forall r via v n, snd sr = RAuthz (Acc r) via -> r_vr r = Some v ->
+            assoc k_client_id (r_params r) = Some (PS_ cid) -> v_key v = Some n ->
+            exists kt, alg_kind (v_alg v) = AlgK kt /\
+                       (In (kt, n) (material (rs_mat s)) \/ (kt = KOct /\ In n (own_keys (jar g) KOct))))
+         (run (after g h) d (init t0) ops).
+Proof. exact history_latest_material. Qed.
+Print Assumptions C16_history_latest_material.
+
+(* C16_history_superseded_refused - material the registration in force does not bring (the replaced secret, keys of a
+   replaced jwks / jwks_uri document, keys a later jwks no longer lists) never makes an object take effect for cid *)
+Theorem C16_history_superseded_refused : forall g h d t0 ops cid s n, cfg_wf g = true -> latest h cid = Some s ->
+  ~ In n (List.map snd (material (rs_mat s))) -> ~ In n (own_keys (jar g) KOct) ->
+  Forall (fun sr => forall r via v, snd sr = RAuthz (Acc r) via -> r_vr r = Some v ->
+            assoc k_client_id (r_params r) = Some (PS_ cid) -> v_key v <> Some n)
+         (run (after g h) d (init t0) ops).
+Proof. exact history_superseded_refused. Qed.
+Print Assumptions C16_history_superseded_refused.
+
+(* the permitted algorithm is the one of the registration in force as well *)
+Theorem C16_history_alg_in_force : forall g h d t0 ops cid s, cfg_wf g = true -> latest h cid = Some s ->
+  Forall (fun sr => forall r via v, snd sr = RAuthz (Acc r) via -> r_vr r = Some v ->
+            assoc k_client_id (r_params r) = Some (PS_ cid) ->
+            match negotiate g (rq_alg (rs_rq s)) with
+            | RStr a => v_alg v = a
+            | RAbsent => In (v_alg v) (prov_algs g)
+            | RList l => In (v_alg v) l
+            end)
+         (run (after g h) d (init t0) ops).
+Proof. exact history_alg_in_force. Qed.
+Print Assumptions C16_history_alg_in_force.
+
+(* the provider's own keys and the guard of the theorems above are untouched by any history *)
+Theorem C16_history_own_keys : forall h g k, own_keys (jar (after g h)) k = own_keys (jar g) k.
+Proof. exact history_own_keys. Qed.
+Print Assumptions C16_history_own_keys.
+
+Theorem C16_history_wf : forall h g, cfg_wf g = true -> cfg_wf (after g h) = true.
+Proof. exact history_wf. Qed.
+Print Assumptions C16_history_wf.
+
+(* non-vacuity: ex_hist = register {RSA 12, EC 13} (secret 14, asks RS256); again without key material (secret 20);
+   a refused registration bringing RSA 24; again with RSA 18 (secret 26).  After each prefix only the material of the
+   registration in force makes an object take effect; what was replaced is refused, what a refused registration
+   brought never counts, and the RS256 the first registration asked for is gone with its record *)
+Example C16_history_examples :
+  let g0 := ex_cfg true RAbsent in
+  let eff h := List.map (fun ak => ex_effect (after g0 (firstn h ex_hist)) (fst ak) (snd ak))
+                 [(s_rs256, 12%nat); (s_es256, 13%nat); (s_hs256, 14%nat); (s_hs256, 20%nat); (s_rs256, 24%nat);
+                  (s_rs256, 18%nat); (s_hs256, 26%nat)] in
+  cfg_wf g0 = true /\
+  eff 0%nat = [false; false; false; false; false; false; false] /\
+  eff 1%nat = [true; false; false; false; false; false; false] /\
+  eff 2%nat = [false; false; false; true; false; false; false] /\
+  eff 3%nat = [false; false; false; true; false; false; false] /\
+  eff 4%nat = [false; false; false; false; false; true; true] /\
+  List.map (fun s => m_secret (rs_mat s)) (match latest ex_hist s_cd with Some s => [s] | None => [] end) = [26%nat] /\
+  assoc s_cd (jar (after g0 ex_hist)) = Some [(KRsa, 18%nat); (KOct, 26%nat)].
+Proof. vm_compute. repeat split; reflexivity. Qed.
+(* --- end round 11 --- *)
